@@ -17,6 +17,7 @@ def build_registry(world=None) -> Registry:
     c_lifecycle.register(reg)
     c_dispatch.register(reg)
     c_concurrent.register(reg)
+    c_concurrent.register2(reg)
     reg._signal_decls = reg._signal_decl_finder(world)
     reg.world = world
     import os
